@@ -46,12 +46,12 @@ theorem merge_visits_sorted :
 #print axioms merge_visits_sorted
 
 /-- the same for the per-project second pass of project mode (luahelper.json ProjectFiles; repaired): the helper collects
-    and sorts the project's files, and the merge of the _G globals and the merge of the members other files add to them
-    both range over its result — so `sorted_visit_function_of_workspace` speaks about them too -/
+    and sorts the project's files, and the merge of the _G globals, the merge of the globals of required files and the merge of
+    the members other files add to them all range over its result — so `sorted_visit_function_of_workspace` speaks about them too -/
 theorem project_visits_sorted :
     Gen.projectVisits =
       ["range second.AllFiles { fileList = append(fileList, strFile) }", "sort.Strings(fileList)",
-       "range sortedProjectFiles(second)", "range sortedProjectFiles(second)"] := by
+       "range sortedProjectFiles(second)", "range sortedProjectFiles(second)", "range sortedProjectFiles(second)"] := by
   decide
 #print axioms project_visits_sorted
 
